@@ -168,4 +168,13 @@ def cases(tier, seed):  # noqa: F811
             if k % (3 if tier == "thorough" else 6) == 0:
                 for lay in ("F", "view"):
                     extra.append(dict(c, params=dict(prm, layout=lay), input_class=c["input_class"] + "/layout-" + lay))
+    # the same permutation handed over as a tuple, an ndarray, a list of numpy integers
+    k = 0
+    for c in base:
+        prm = c.get("params", {})
+        if c["clause"] == "ps.index" and prm.get("entries", "arange") != "sym" and not prm.get("sparse"):
+            k += 1
+            if k % 9 == 0:
+                for pf in ("tuple", "array", "npint"):
+                    extra.append(dict(c, params=dict(prm, permform=pf), input_class=c["input_class"] + "/perm-as-" + pf))
     return base + extra
